@@ -125,6 +125,16 @@ def checkAssigned (c : Cfg) (post : State) (t : Nat) (kvs : List (Nat × Rhs)) :
     else
       if refOf post t kv.1 != some kv.2 then some s!"T{t}.p{kv.1} was given a reference but refs does not hold it" else none
 
+/-- an accepted assignment never rebinds a constant (or readonly) parameter to another value -/
+def checkConstants (c : Cfg) (pre post : State) (t : Nat) (kvs : List (Nat × Rhs)) : Option String :=
+  firstSome kvs fun kv =>
+    match c.decl t kv.1 with
+    | some d =>
+      if (d.constant || d.readonly) && tgtVal pre t kv.1 != tgtVal post t kv.1 then
+        some s!"T{t}.p{kv.1} is constant but an assignment outside edit_constant changed its value"
+      else none
+    | none => none
+
 /-- parameters that the operation does not assign keep their link and (unless the class default
 moved under them) their value -/
 def checkOthers (pre post : State) (t : Option Nat) (keys : List Nat) (valuesToo : Bool) : Option String :=
@@ -201,6 +211,7 @@ def specC08 (c : Cfg) (init : State) (steps : List (Op × StepObs)) : Nat × Opt
             match keysOf op with
             | some (t, kvs) =>
               (if ok then checkAssigned c post t kvs else none)
+              <|> checkConstants c pre post t kvs
               <|> checkOthers pre post (some t) (kvs.map (·.1)) true
               <|> (if pre.src != post.src then some "an assignment to a target changed a source" else none)
             | none => none)
@@ -210,7 +221,7 @@ def specC08 (c : Cfg) (init : State) (steps : List (Op × StepObs)) : Nat × Opt
         <|> ((List.range (ntargets post)).findSome? fun t => (leftover c post t).map fun d =>
               s!"T{t} keeps a _sync_refs watcher on S{d.1}.v{d.2} although no link of T{t} depends on it")
         <|> checkValues c post
-        <|> (if post.aux != init.aux then some "an Event parameter, a `syncing` set or the shared generator's witness value was disturbed" else none)
+        <|> (if post.aux != init.aux then some "an Event parameter's mode, a `constant` flag, a `syncing` set or the shared generator's witness value is not what it was" else none)
       match hard with
       | some why => (n, some (.hard s!"step {n}: {why}"))
       | none =>
@@ -303,8 +314,8 @@ def specC02 (c : Cfg) (init : State) (steps : List (Op × StepObs)) (twin : List
       -- linked parameter was rejected
       let idle : Option String :=
         if o.st.aux != init.aux then
-          some (if rejected o then "after the rejected operation an Event parameter, a `syncing` set or a generator shared with another parameter is not as before"
-                else "an Event parameter, a `syncing` set or the shared generator's witness value was disturbed")
+          some (if rejected o then "after the rejected operation an Event parameter's mode, a `constant` flag, a `syncing` set or a generator shared with another parameter is not as before"
+                else "an Event parameter's mode, a `constant` flag, a `syncing` set or the shared generator's witness value was disturbed")
         else match op with
           | .srcSet .. =>
             if rejected o && (o.st.refs != pre.refs || o.st.watch != pre.watch) then
